@@ -120,6 +120,10 @@ class Job:
         f = dict(what="%s: %s" % (self.name, what), known=None, replay=replay)
         kfs = C.known_for(self.known, self.entry.name + "/" + gtag(self.cfg), regions_kind or kind)
         if kfs and facts is not None and goal is not None:
+            extra_ns = dict(extra_ns or {})
+            for tg in self.entry.tags:
+                if tg.startswith("c="):
+                    extra_ns.setdefault("c", int(tg[2:]))
             regs = [region_term(k, self.vals, self.env, self.cfg, extra_ns) for k in kfs]
             goals = (list(goal) if isinstance(goal, (list, tuple)) else [goal]) + [z3.Not(r) for r in regs]
             st2, m2 = H.solve(facts, goals, self.timeout)
